@@ -1472,6 +1472,13 @@ def check_C05(tier, seed):
         (["(setq f (let ((x 1)) (lambda () (dotimes (x 3) x) x)))", "(funcall f)"], [None, '1']),
         (["(setq x 'glob)", "(setq f (let ((x 1)) (lambda () (g-reads-x))))", "(defun g-reads-x () x)", "(funcall f)"], [None, None, None, 'glob']),
     ]
+    fixed += [
+        (["(defun step (v) (+ v 1))", "(setq f (let ((step (lambda (v) (* v 3)))) (lambda (n) (eval '(step (step n))))))", "(list (funcall f 2) (step 2))"], [None, None, '(18 3)']),
+        (["(defun step (v) (+ v 1)) (setq f (let ((step (lambda (v) (* v 3)))) (lambda (n) (eval '(step n))))) (let ((step nil)) (funcall f 5))"], ['15']),
+        (["(setq op 'not-a-function)", "(setq f (let ((op (lambda (a b) (- a b)))) (lambda (a b) (eval '(op a b)))))", "(funcall f 10 4)"], [None, None, '6']),
+        (["(defun step (v) (+ v 1))", "(setq f (let ((step (lambda (v) (* v 3)))) (lambda (n) (list (step n) (funcall step n) (mapcar step (list n))))))", "(funcall f 2)"], [None, None, '(6 6 (6))']),
+        (["(defun hd (v) (car v))", "(setq f (let ((hd (lambda (v) (cdr v)))) (lambda (n) (list (hd n) `(,(hd n)) (eval `(hd ',n))))))", "(funcall f '(1 2))"], [None, None, "((2) ((2)) (2))"]),
+    ]
     for t, e in fixed: add(t, e, 'fixed')
     cases = []
     for i, (texts, meta) in enumerate(items):
@@ -1505,3 +1512,157 @@ def check_C05(tier, seed):
     return res.finish(gate)
 
 CHECKS['C05'] = check_C05
+
+# ---------------------------------------------------------------- C04
+class TailGen:
+    def __init__(self, rng, name='f', shape='req'):
+        self.r = rng; self.name = name; self.tid = 0; self.has_nontail = False; self.shape = shape
+    def tk(self, e):
+        if self.r.random() < 0.25:
+            self.tid += 1; return ['tick', self.tid, e]
+        return e
+    def cond_e(self):
+        return self.r.choice([['<', ['mod', 'n', 3], 1], ['<', ['mod', 'n', 2], 1], ['>', 'acc', 100], ['<', ['mod', ['+', 'n', 'acc'], 4], 2], True, None])
+    def acc_e(self):
+        return self.tk(self.r.choice([['+', 'acc', 'n'], ['+', 'acc', 1], ['*', 2, ['mod', 'acc', 1000]], 'acc', ['-', 'acc', 'n'], ['+', 'n', 1]]))
+    def selfcall(self):
+        r = self.r
+        n1 = r.choice([['-', 'n', 1], ['1-', 'n'], ['-', 'n', 1]])
+        a = self.acc_e()
+        # argument expressions may permute / re-read / shadow the parameters
+        if r.random() < 0.2: a = ['let', [['n', 'acc']], ['+', 'n', 1]]
+        if r.random() < 0.15: a = ['progn', ['setq', 'g', ['+', 'g', 1]], a]
+        if self.shape == 'req': return [self.name, n1, a]
+        if self.shape == 'opt': return [self.name, n1, a] if r.random() < 0.8 else [self.name, n1]
+        return [self.name, n1, a, 'n']                      # &rest collects the extra
+    def base(self): return self.tk(self.r.choice(['acc', ['list', 'acc', 'n'], ['+', 'acc', 0]]))
+    def tail(self, d):
+        r = self.r
+        if d <= 0: return self.selfcall() if r.random() < 0.7 else self.base()
+        c = r.choice(['if', 'if1', 'cond', 'progn', 'let', 'let*', 'when', 'unless', 'self', 'nontail', 'and'])
+        if c == 'if': return ['if', self.cond_e(), self.tail(d - 1), self.tail(d - 1)]
+        if c == 'if1': return ['if', self.cond_e(), self.tail(d - 1), ['setq', 'g', ['+', 'g', 1]], self.tail(d - 1)]
+        if c == 'cond':
+            cl = [[self.cond_e(), self.tail(d - 1)] for _ in range(r.choice([1, 2, 3]))]
+            if r.random() < 0.3: cl.insert(r.randrange(len(cl) + 1), [self.cond_e()])
+            cl.append([True, self.tail(d - 1)])
+            return ['cond'] + cl
+        if c == 'progn': return ['progn', ['setq', 'g', ['+', 'g', 'n']], self.tail(d - 1)]
+        if c == 'let': return ['let', [[r.choice(['m', 'acc', 'k']), self.acc_e()]], self.tail(d - 1)]
+        if c == 'let*': return ['let*', [['m', ['+', 'n', 0]], ['k', ['+', 'm', 'acc']]], self.tail(d - 1)]
+        if c == 'when': return ['when', self.cond_e(), ['setq', 'g', ['+', 'g', 1]], self.tail(d - 1)]
+        if c == 'unless': return ['unless', self.cond_e(), self.tail(d - 1)]
+        if c == 'self': return self.selfcall()
+        if c == 'and': self.has_nontail = True; return ['and', True, self.selfcall()]       # not a recognised tail position: ordinary call
+        self.has_nontail = True
+        return r.choice([['+', 1, self.selfcall()], ['car', ['list', self.selfcall()]], ['progn', self.selfcall(), self.base()]])
+    def defun(self, depth):
+        ps = {'req': ['n', 'acc'], 'opt': ['n', '&optional', 'acc'], 'rest': ['n', 'acc', '&rest', 'more']}[self.shape]
+        guard_acc = 'acc' if self.shape != 'opt' else ['or', 'acc', 0]
+        body = self.tail(depth)
+        if self.shape == 'opt': body = ['let', [['acc', ['or', 'acc', 0]]], body]
+        return ['defun', self.name, ps, ['if', ['<', 'n', 1], guard_acc, body]]
+
+def untail(x, name):
+    """The same definition with every direct self-call written (funcall 'name ...): ordinary recursion."""
+    from .gen.sexp import Wrap, Dot
+    if isinstance(x, list) and x:
+        if x[0] == name: return ['funcall', Q(name)] + [untail(a, name) for a in x[1:]]
+        if x[0] == 'defun': return x[:3] + [untail(a, name) for a in x[3:]]
+        return [untail(a, name) for a in x]
+    if isinstance(x, Wrap): return x
+    return x
+
+def check_C04(tier, seed):
+    res = Result('C04', tier, seed); res.pending = []
+    gate = proof_gate('C04')
+    core.build_model(); core.build_impl(); core.build_impl(release=True)
+    rng = random.Random(seed)
+    cases = []; metas = []
+    nprog = tier_n(tier, 400, 10000)
+    for i in range(nprog):
+        shape = rng.choice(['req', 'req', 'opt', 'rest'])
+        g = TailGen(rng, 'f', shape)
+        d = g.defun(rng.choice([1, 2, 3, 4]))
+        calls = []
+        for _ in range(3):
+            n = rng.choice([0, 1, 2, 3, 5, 8, 13, 30])
+            route = rng.choice(['direct', 'funcall', 'mapcar', 'direct'])
+            if route == 'direct': calls.append(['f', n, 0])
+            elif route == 'funcall': calls.append(['funcall', Q('f'), n, 1])
+            else: calls.append(['mapcar', ['lambda', ['e'], ['f', 'e', 0]], Q([0, 1, n])])
+        vars_ = ['n', 'acc', 'm', 'k', 'g', 'more']
+        for variant, dd in (('t', d), ('u', untail(d, 'f'))):
+            c = Case('%s%d' % (variant, i))
+            c.eval('(setq g 0) ' + render(dd)); c.vars(vars_)
+            for cl in calls:
+                c.eval(render(cl)); c.vars(vars_)
+            cases.append(c)
+        metas.append({'defun': render(d), 'nontail': g.has_nontail, 'shape': shape})
+    impl, model, dis = differential(res, cases)
+    nv = 0
+    distinct = set()
+    def obsl(l):
+        idx, kind, payload, ticks = core.parse_line(l)
+        return core.default_observe(kind, payload, ticks)
+    for i, meta in enumerate(metas):
+        a = [obsl(l) for l in impl.get('t%d' % i, [])][1:]
+        b = [obsl(l) for l in impl.get('u%d' % i, [])][1:]
+        distinct.add((meta['defun'][:60], tuple(x[1] for x in a)))
+        if a != b:
+            nv += 1
+            if nv <= 8:
+                res.violation('tail-meaning', {'defun': meta['defun'], 'why': 'result, side effects or final variables differ from ordinary recursion (the same definition with its self-calls written (funcall \'f ...))',
+                                               'trampolined': [decode_line(l) for l in impl.get('t%d' % i, [])], 'ordinary': [decode_line(l) for l in impl.get('u%d' % i, [])]})
+    # --- stack: pure tail-recursive bodies, many iterations on a small stack, both profiles
+    stack_cases = []
+    canon = [
+        "(defun f (n acc) (if (< n 1) acc (f (- n 1) (+ acc 1))))",
+        "(defun f (n acc) (cond ((< n 1) acc) ((< (mod n 3) 1) (f (- n 1) (+ acc 2))) ((< (mod n 3) 2) (f (- n 1) acc)) (t (f (- n 1) (+ acc 1)))))",
+        "(defun f (n acc) (if (< n 1) acc (progn (setq g n) (let ((m (- n 1))) (let* ((k (+ acc 1))) (f m k))))))",
+        "(defun f (n acc) (if (< n 1) acc (if (< (mod n 2) 1) (f (- n 1) (+ acc 1)) (f (- n 1) acc))))",
+        "(defun f (n acc) (if (< n 1) acc (when t (unless nil (f (- n 1) (+ acc 1))))))",
+        "(defun f (n &optional acc) (if (< n 1) acc (f (- n 1) (+ (or acc 0) 1))))",
+        "(defun f (n acc &rest more) (if (< n 1) acc (f (- n 1) (+ acc 1) n n)))",
+        "(defun f (n acc) (cond ((< n 1) acc) (t (if (> acc -1) (progn (f (- n 1) (+ acc 1))) (f (- n 1) acc)))))",
+    ]
+    gens = []
+    tries = 0
+    while len(gens) < tier_n(tier, 12, 60) and tries < 5000:
+        tries += 1
+        g = TailGen(rng, 'f', rng.choice(['req', 'req', 'opt', 'rest'])); g.tk = lambda e: e
+        d = g.defun(rng.choice([1, 2, 3]))
+        if not g.has_nontail and 'list' not in render(d) and '(* 2' not in render(d): gens.append(render(d))
+    big = tier_n(tier, 100000, 1000000)
+    for j, d in enumerate(canon + gens):
+        c = Case('s%d' % j)
+        c.eval('(setq g 0) ' + d.replace('(if (< n 1) acc', '(if (< n 1) (progn (probe) acc)', 1).replace('(cond ((< n 1) acc)', '(cond ((< n 1) (probe) acc)', 1))
+        c.eval('(f 10 0)'); c.eval('(f 10000 0)'); c.eval('(f %d 0)' % big)
+        stack_cases.append((c, d))
+    for binary, label in ((core.TLIMPL_DEBUG, 'debug'), (core.TLIMPL_RELEASE, 'release')):
+        out = core.run_side(binary, [c for c, _ in stack_cases], env={'TL_STACK_MB': '4', 'TL_STACKPROBE': '1'}, announce=True, timeout=1200)
+        for c, d in stack_cases:
+            ls = out.get(c.cid, [])
+            depths = []
+            ok = len(ls) == 4
+            for l in ls[1:]:
+                m = re.search(r' S (\d+)$', l)
+                kind = core.parse_line(l.rsplit(' S ', 1)[0])[1] if ' S ' in l else core.parse_line(l)[1]
+                if kind not in ('V',): ok = False
+                depths.append(int(m.group(1)) if m else None)
+            res.cov['evaluations'] += len(ls)
+            if not ok:
+                nv += 1
+                if nv <= 8: res.violation('tail-stack', {'defun': d, 'profile': label, 'why': 'a self tail call did not complete %d iterations on a 4 MiB stack' % big, 'lines': ls})
+    res.cov['distinct_nontrivial'] = len(distinct)
+    res.cov['stack_iterations'] = big
+    res.cov['rule'] = ('%d generated self-recursive definitions (nestings of if / cond incl. body-less clauses / progn / let / let* / when / unless to depth 4, tail and non-tail self-calls mixed, '
+                       'required / &optional / &rest parameters, argument expressions that re-read, shadow or assign variables) called directly, via funcall and from mapcar with 0-30 iterations; '
+                       'oracle: identical transcript (value, tick log, variables) to the same definition with self-calls written (funcall \'f ..), i.e. ordinary recursion; correspondence with the model; '
+                       'stack: %d pure tail-recursive definitions run %d iterations on a 4 MiB thread stack in debug and release' % (nprog, len(stack_cases), big))
+    res.cov['samples'] = [m['defun'] for m in metas[:3]]
+    for d in res.pending:
+        res.violation('disagreement', d, no_input=not oracle_confirms(d))
+    return res.finish(gate)
+
+CHECKS['C04'] = check_C04
